@@ -1022,7 +1022,9 @@ def cli_params(rng, i, tier):
     workers = [None, 1, 2, 4, 8][(i // 4) % 5] if tier == 'quick' else rng.choice([None, None, 1, 2, 4, 8])
     # generation costs seconds per program: small sessions in the quick tier, the whole
     # range (skewed towards short sessions) in the thorough one
-    n = rng.randint(3, 8) if tier == 'quick' else int(3 + 37.99 * rng.random() ** 2.2)
+    n = rng.randint(3, 8) if tier == 'quick' else int(3 + 37.99 * rng.random() ** 2.6)
+    if not workers or workers == 1:
+        n = min(n, 24)          # one generating process: keep the longest sessions for the pools
     return {'lang': lang, 'iterations': n, 'batch': rng.randint(1, 12), 'workers': workers,
             'transformations': rng.randint(0, 2), 'only_cp': rng.random() < 0.25,
             'keep_all': rng.random() < 0.3,
@@ -1194,7 +1196,7 @@ def main(prop, tier):
         agg.inconclusive.append('sessions would not import the tree under test: %s' % src)
     cells = []
     parts_on = set((os.environ.get('VERIF_C15_PARTS') or 'table,session,cli').split(','))
-    n_cli = (12 if quick else 48) if 'cli' in parts_on else 0
+    n_cli = (12 if quick else 44) if 'cli' in parts_on else 0
     for i in range(n_cli):
         rng = random.Random(common.h32(seed, 'cli', i))
         cells.append(('cell_cli', {'params': cli_params(rng, i, tier), 'runid': runid}))
